@@ -109,6 +109,23 @@ async def racing_lookups_of_one_factory():
 
 
 @scenario
+async def generation_next_to_an_occupied_key():
+    from asphalt.core import Context
+    async with Context() as root:
+        root.add_resource(A(), types=[A])                        # occupies (A, default)
+        root.add_resource_factory(lambda: B(), types=[A, B])     # a factory for A and B
+        async with Context() as child:
+            await _quiet(child.get_resource, B)                  # generated under B only; (A, default) stays the static one
+            child.get_resources(A)
+            child.get_resources(B)
+            await _quiet(child.get_resource_nowait, A)
+            await _quiet(child.get_resource, B)
+        await _quiet(root.get_resource_nowait, B)
+        root.get_resources(A)
+        root.get_resources(B)
+
+
+@scenario
 async def lifecycle_misuse():
     from asphalt.core import Context
     root = Context()
